@@ -22,7 +22,10 @@ type ctx struct {
 	root    string // scratch directory for server/client directories
 	rng     *rand.Rand
 	summary hx.J
+	only    string
 }
+
+func (c *ctx) part(p string) bool { return c.only == "" || c.only == p }
 
 var families = map[string]func(*ctx) error{}
 
@@ -38,6 +41,7 @@ func main() {
 	out := fs.String("out", "trace.ndjson", "trace output")
 	root := fs.String("root", "", "scratch root")
 	sum := fs.String("summary", "", "summary json output")
+	only := fs.String("only", "", "run only this part of the family")
 	fs.Parse(os.Args[2:])
 	f, ok := families[fam]
 	if !ok {
@@ -53,7 +57,7 @@ func main() {
 		defer os.RemoveAll(d)
 	}
 	os.Setenv("TMPDIR", *root)
-	c := &ctx{seed: *seed, tier: *tier, out: *out, root: *root, rng: rand.New(rand.NewSource(*seed)), summary: hx.J{}}
+	c := &ctx{seed: *seed, tier: *tier, out: *out, root: *root, rng: rand.New(rand.NewSource(*seed)), summary: hx.J{}, only: *only}
 	start := time.Now()
 	// the test build's servers and clients panic after 120 s alive: a driver
 	// process must be short-lived
